@@ -36,3 +36,7 @@ CHECKS["C12"] = c12_check.run
 
 import c11_check
 CHECKS["C11"] = c11_check.run
+
+import c08_check
+CHECKS["C08"] = c08_check.run
+CHECKS["C16"] = c08_check.run
